@@ -4,7 +4,7 @@ from __future__ import annotations
 from typing import Dict, List
 
 from .. import coqrun as C
-from .. import core, engprop as E, hx
+from .. import acccorr, core, engprop as E, hx
 from .. import indicators as X
 
 from hexital.utils.candles import reading_by_candle  # noqa: E402
@@ -153,14 +153,29 @@ def run(ctx: core.Ctx) -> int:
             tfs.append(rng.choice([None, None, "T5", "T15"]))
         cases.append({"specs": specs, "rows": rows, "tfs": tfs, "probe": [rng.randrange(1000) for _ in range(3)],
                       "after": rng.choice([None, None, "calc_index_mid"]), "hcfg": hcfg})
+    ac = acccorr.AccCorr(ctx, "C20")
     for c in cases:
         ctx.count("eval_falsifier")
         falsify(ctx, c)
+        try:
+            with core.time_limit(40):
+                ms_ = [hx.member(s_, tf_) for s_, tf_ in zip(c["specs"], c["tfs"])]
+                if len({m_.name for m_ in ms_}) == len(ms_):
+                    h_ = hx.hexital(c["rows"], ms_, c.get("hcfg"))
+                    h_.calculate()
+                    for m_, s_ in zip(ms_, c["specs"]):
+                        if m_.timeframe is None:
+                            nms = names_of(s_, m_) + (["gappy"] if any("gappy" in r_["inds"] for r_ in c["rows"]) else [])
+                            ac.add(acccorr.case_term(h_, m_, nms, c["probe"][:2]), {"specs": c["specs"], "tfs": c["tfs"], "n": len(c["rows"])})
+                            break
+        except Exception:  # noqa
+            pass
         for s in c["specs"]:
             dist[s["kind"]] = dist.get(s["kind"], 0) + 1
         ctx.seen({"specs": c["specs"], "tfs": c["tfs"], "rows": c["rows"]}, len(c["rows"]) >= 3)
         if len(ctx.samples) < 3:
             ctx.sample({"specs": c["specs"], "tfs": c["tfs"], "n": len(c["rows"]), "after": c.get("after")})
+    ac.run()
     ctx.coverage.update({"input_distribution": dist,
                          "nontrivial_rule": "Hexital over >= 3 candles with at least one member; every plain and dotted name probed"})
     return core.finish(ctx, proof)
